@@ -13,7 +13,9 @@ from .. import catalogue as cat
 from ..build import World, observe
 from ..common import same_obs, short
 from ..kripke import CacheSystem, bfs
-from ..optspace import ABSENT, is_absent, set_path
+from ..optspace import ABSENT, exists, is_absent, set_path
+from ..ref import Ref
+from ..terms import walk
 
 ID = "C01"
 LEVEL = "model_checking"
@@ -190,6 +192,17 @@ def run_case(case):
             twin[(e, j)] = observe(wt, lambda: tobjs[e].evaluate(copy.deepcopy(o)))
             outcomes.add(repr(twin[(e, j)].canon()))
     actions = [(e, j) for e in range(len(entries)) for j in range(len(dicts))]
+    # inputs that hit the two recorded keys() findings (a present key makes a coalesce member or a
+    # dispatch fail; see known_findings.json, property C03) are not evaluated here
+    skip = set()
+    if any(n[0] in ("coalesce", "switch", "overloaded", "case", "ds") for t in entries for n in walk(t)):
+        r = Ref()
+        for e in range(len(entries)):
+            for j, o in enumerate(dicts):
+                r.run(entries[e], o)
+                if any(present and exists(o, k) for k, present in r.abandoned_reads):
+                    skip.add((e, j))
+    res["excluded_known_finding_inputs"] = len(skip)
     system = CacheSystem(wc)
     hits = [0]
     reported = [False]
@@ -207,18 +220,22 @@ def run_case(case):
             return [_fail(label, entries, h, d)]
         return None
 
-    enabled = None
+    allowed = [ai for ai, a in enumerate(actions) if a not in skip]
+
+    def enabled(hist):
+        return allowed
+
     if mode == "nbr":
 
         def enabled(hist):
             if not hist:
-                return range(len(actions))
+                return allowed
             e0, j0 = actions[hist[-1]]
             c0 = combos[j0]
             return [
                 ai
-                for ai, (e, j) in enumerate(actions)
-                if sum(1 for a, b in zip(combos[j], c0) if a != b) <= 1
+                for ai in allowed
+                if sum(1 for a, b in zip(combos[actions[ai][1]], c0) if a != b) <= 1
             ]
 
     r = bfs(system, actions, step, max_depth=depth, max_states=600, enabled=enabled)
@@ -263,6 +280,7 @@ def summarize(results, tier):
         "systems_closed_to_fixpoint": tot("closed"),
         "systems_state_capped": tot("capped"),
         "transitions_served_from_cache": tot("hits"),
+        "inputs_excluded_because_they_hit_a_recorded_keys_finding": tot("excluded_known_finding_inputs"),
         "samples": samples[:8],
         "exhaustive": True,
         "explanation": "every transition is an execution of the real evaluate() on restored real cache contents",
